@@ -105,7 +105,19 @@ def rich_specs():
     # static obstacles whose initial state carries a time step > 0 (they occupy their region at every time)
     sp["obstacles"].append({"role": "static", "id": 43, "type": "CONSTRUCTION_ZONE", "shape": ["rect", 3.0, 1.0, 0.0, 0.0, 0.0], "initial_state": spec.init_state(x=18.0, y=5.5, o=0.2, v=0.0, t=5)})
     sp["obstacles"].append({"role": "static", "id": 44, "type": "ROAD_BOUNDARY", "shape": ["circle", 0.6, 0.0, 0.0], "initial_state": spec.init_state(x=22.0, y=6.0, o=0.0, v=0.0, t=12)})
+    # ... and a set-based obstacle whose occupancies are listed out of temporal order (steps 3..7, then 1, 2: the last listed occupancy is not the final one)
+    sp["obstacles"].append({"role": "dynamic", "id": 45, "type": "CAR", "shape": ["rect", 2.0, 1.0, 0.0, 0.0, 0.0], "initial_state": spec.init_state(x=34.0, y=5.0, o=0.0, v=1.0, t=0),
+                            "prediction": {"k": "set", "t0": 1, "occ": [{"t": t_, "shape": ["rect", 2.0, 1.0, 34.0 + t_, 5.0, 0.0]} for t_ in (3, 4, 5, 6, 7, 1, 2)]}})
     out["late-obstacles"] = sp
+    # nothing static to draw besides the lanelet fill: no line markings, stop lines, signs, lights or labels; two moving obstacles
+    sp = spec.minimal()
+    sp["lanelets"] = [{"id": 1, "left": [[0.0, 3.5], [20.0, 3.5]], "right": [[0.0, 0.0], [20.0, 0.0]], "mark_left": "NO_MARKING", "mark_right": "NO_MARKING"}]
+    sp["obstacles"] = [{"role": "dynamic", "id": 31, "type": "CAR", "shape": ["rect", 4.5, 2.0, 0.0, 0.0, 0.0], "initial_state": spec.init_state(x=2.5, y=1.75, o=0.0, v=8.0),
+                        "prediction": {"k": "trajectory", "t0": 1, "shape": ["rect", 4.5, 2.0, 0.0, 0.0, 0.0],
+                                       "states": [speclib.ks(t_, 2.5 + 2.0 * t_, 1.75, 0.0) for t_ in range(1, 6)]}},
+                       {"role": "dynamic", "id": 32, "type": "BICYCLE", "shape": ["circle", 0.75, 0.0, 0.0], "initial_state": spec.init_state(x=15.0, y=1.0, o=3.0, v=2.0),
+                        "prediction": {"k": "set", "t0": 1, "occ": [{"t": t_, "shape": ["circle", 0.75, 15.0 - t_, 1.0]} for t_ in range(1, 5)]}}]
+    out["bare"] = sp
     # obstacles of every role whose INITIAL position is a region (the occupancy is then the region swept by the shape), with exact later states
     sp = speclib.base()
     speclib.find(sp, "obstacles", 30)["initial_state"]["attrs"]["position"] = ["circle", 0.5, 20.0, 5.5]
@@ -133,9 +145,9 @@ def build(name, tmpdir):
     return spec.build(rich_specs()[name])
 
 
-RICH = ["base", "late-obstacles", "pm-trajectory", "custom-pm-trajectory", "uncertain-states", "uncertain-initial-positions", "partial-signals", "defaults", "file:test_reading_all.xml", "file:test_reading_intersection_traffic_sign.xml",
+RICH = ["base", "late-obstacles", "pm-trajectory", "custom-pm-trajectory", "uncertain-states", "uncertain-initial-positions", "partial-signals", "bare", "defaults", "file:test_reading_all.xml", "file:test_reading_intersection_traffic_sign.xml",
         "file:test_reading_complex_tl.xml"]
-EXACT = ["base", "late-obstacles", "pm-trajectory", "defaults", "uncertain-states", "uncertain-initial-positions", "partial-signals"]
+EXACT = ["base", "late-obstacles", "pm-trajectory", "defaults", "uncertain-states", "uncertain-initial-positions", "partial-signals", "bare"]
 
 
 # ------------------------------------------------------------------------------------ (a) totality
@@ -326,6 +338,9 @@ def frames_case(name, w1, w2, keep, res, tmpdir):
             o.draw(rnd, p2)
         patches = list(rnd.obstacle_patches)
         rnd.render(keep_static_artists=keep)
+        # what the axes show after the second frame was rendered: the patch collections on the axes hold exactly the shapes buffered for that frame
+        import matplotlib.collections as _mc
+        on_axes = sum(len(c.get_paths()) for c in rnd.ax.collections if type(c) is _mc.PatchCollection)
     except Exception as e:
         res.violation(f"C19|two-frames|keep_static_artists={keep}|raises:{type(e).__name__}", f"{case}: {e!r}", case)
         return
@@ -337,6 +352,9 @@ def frames_case(name, w1, w2, keep, res, tmpdir):
     missing, extra = req - got, got - req - opt
     if missing:
         res.violation(f"C19|two-frames|keep_static_artists={keep}|second-frame:missing-patch", f"{case}: {sum(missing.values())} occupancies of the second frame are not drawn", case)
+    if on_axes != len(patches):
+        res.violation(f"C19|two-frames|keep_static_artists={keep}|axes-show-{'more' if on_axes > len(patches) else 'fewer'}-shapes-than-the-second-frame",
+                      f"{case}: {on_axes} shapes in the patch collections on the axes, {len(patches)} buffered for the second frame", case)
     if extra:
         res.violation(f"C19|two-frames|keep_static_artists={keep}|second-frame:extra-patch", f"{case}: {sum(extra.values())} shapes drawn that the model does not report at the second frame's time", case)
     res.outcomes["two-frames"] += 1
